@@ -276,6 +276,24 @@ func CheckBucketSignature(b *stack.Bucket, members []*stack.Goroutine) (key, wha
 				}
 			}
 		}
+		// derived fields (source name, local/relative path, import path, location class) are functions of the frame
+		// the members share: the bucket must show what some member has, i.e. what all have when they agree
+		for i := range sig.Calls {
+			s := &sig.Calls[i]
+			found := false
+			for _, m := range members {
+				c := &get(m).Calls[i]
+				if s.SrcName == c.SrcName && s.DirSrc == c.DirSrc && s.LocalSrcPath == c.LocalSrcPath && s.RelSrcPath == c.RelSrcPath && s.ImportPath == c.ImportPath && s.Location == c.Location && s.Func == c.Func {
+					found = true
+					break
+				}
+			}
+			if !found {
+				c := &get(members[0]).Calls[i]
+				return what + "-frame-derived", fmt.Sprintf("bucket %s frame %d shows {src %s dir %s local %q rel %q import %q location %v}, no member has that; member %d has {src %s dir %s local %q rel %q import %q location %v}",
+					what, i, s.SrcName, s.DirSrc, s.LocalSrcPath, s.RelSrcPath, s.ImportPath, s.Location, members[0].ID, c.SrcName, c.DirSrc, c.LocalSrcPath, c.RelSrcPath, c.ImportPath, c.Location)
+			}
+		}
 		if !withArgs {
 			return "", ""
 		}
@@ -291,6 +309,7 @@ func CheckBucketSignature(b *stack.Bucket, members []*stack.Goroutine) (key, wha
 					return "arg-shape", fmt.Sprintf("frame %d: bucket argument shape %s, member %d has %s", i, sshape.String(), m.ID, sh.String())
 				}
 			}
+			frameEq := true
 			for p, sa := range sflat {
 				allEq := true
 				f := mflat[0][p]
@@ -298,6 +317,7 @@ func CheckBucketSignature(b *stack.Bucket, members []*stack.Goroutine) (key, wha
 					a := mflat[mi][p]
 					if a.Value != f.Value || a.IsPtr != f.IsPtr || a.IsOffsetTooLarge != f.IsOffsetTooLarge {
 						allEq = false
+						frameEq = false
 					}
 				}
 				star := sa.Name == "*"
@@ -309,6 +329,19 @@ func CheckBucketSignature(b *stack.Bucket, members []*stack.Goroutine) (key, wha
 				}
 				if allEq && (sa.Value != f.Value || sa.IsPtr != f.IsPtr || sa.IsOffsetTooLarge != f.IsOffsetTooLarge || sa.Name != f.Name) {
 					return "common-arg-changed", fmt.Sprintf("frame %d arg %d is %s in all members, bucket shows %s", i, p, f.String(), sa.String())
+				}
+			}
+			// the typed argument strings of source analysis are what is displayed when present: they spell out values,
+			// so they may be shown for the bucket only when every member has exactly these
+			if pr := sig.Calls[i].Args.Processed; len(pr) != 0 {
+				if !frameEq {
+					return "typed-args-of-one-member-shown", fmt.Sprintf("frame %d: members differ in an argument but the bucket displays the typed arguments %q", i, pr)
+				}
+				for _, m := range members {
+					mp := get(m).Calls[i].Args.Processed
+					if strings.Join(mp, "\x00") != strings.Join(pr, "\x00") {
+						return "typed-args-not-of-members", fmt.Sprintf("frame %d: bucket displays typed arguments %q, member %d has %q", i, pr, m.ID, mp)
+					}
 				}
 			}
 		}
